@@ -70,6 +70,17 @@ def _do(F, d, E, sink):
             cf = "canon-raises:" + type(e).__name__
         return {"canonical": cf, "same_object": p is schema,
                 "names": sorted(into) if into is not None else None}
+    if op == "edit":
+        # not a library call: the CALLER edits one of its own schema objects in place between calls
+        t = E[d["target"]]
+        tag = d["tag"]
+        if isinstance(t, dict) and t.get("type") == "record":
+            t["fields"].append({"name": "zz_added_" + tag, "type": ["null", "int"], "default": None})
+        elif isinstance(t, dict) and t.get("type") == "enum":
+            t["symbols"].append("ZZ_ADDED_" + tag)
+        elif isinstance(t, list) and "boolean" not in t:
+            t.append("boolean")
+        return None
     if op == "swrite":
         fo = io.BytesIO()
         sink["stream"] = fo
@@ -90,6 +101,8 @@ def _do(F, d, E, sink):
         fo = io.BytesIO()
         sink["stream"] = fo
         kw = dict(d.get("opts", {}))
+        if d.get("meta"):
+            kw["metadata"] = _get(E, d["meta"])
         F.writer(fo, _get(E, d["schema"]), _get(E, d["records"]), **kw)
         b = fo.getvalue()
         if d.get("out"):
@@ -100,7 +113,10 @@ def _do(F, d, E, sink):
         fo = io.BytesIO(_get(E, d["bytes"]))
         fo.seek(0, 2)
         sink["stream"] = fo
-        F.writer(fo, _get(E, d["schema"]), _get(E, d["records"]), **dict(d.get("opts", {})))
+        kw = dict(d.get("opts", {}))
+        if d.get("meta"):
+            kw["metadata"] = _get(E, d["meta"])
+        F.writer(fo, _get(E, d["schema"]), _get(E, d["records"]), **kw)
         b = fo.getvalue()
         if d.get("out"):
             E[d["out"]] = b
@@ -131,7 +147,10 @@ def _do(F, d, E, sink):
             fo = io.BytesIO()
             E[d["out"] + ".fo"] = fo
             sink["stream"] = fo
-            E[d["out"]] = F.write.Writer(fo, _get(E, d["schema"]), **d.get("opts", {}))
+            kw = dict(d.get("opts", {}))
+            if d.get("meta"):
+                kw["metadata"] = _get(E, d["meta"])
+            E[d["out"]] = F.write.Writer(fo, _get(E, d["schema"]), **kw)
             return fo.getvalue()
         w = E[d["handle"]]
         fo = E[d["handle"] + ".fo"]
